@@ -105,7 +105,10 @@ Definition dec_seq (e : dstate) (bs : bytes) : result (list value * dstate * byt
     let* (len, r1) := read_byte r0 in
     let* (count, r2) := read_byte r1 in
     if (MAXCOUNT <? count) || (len <? count) then Err EInvalidValue
-    else if count =? 0 then Ok ([], None, r2)
+    else if count =? 0 then
+      (* an empty array may still carry its element constructor: the bytes the size announces after the count are skipped *)
+      let* rest := checked_sub_len len 1 in
+      let* (_, r3) := read_len rest r2 in Ok ([], None, r3)
     else
       let* (fc, r3) := take_code None r2 in
       let* size := checked_sub_len len 2 in
@@ -114,7 +117,9 @@ Definition dec_seq (e : dstate) (bs : bytes) : result (list value * dstate * byt
     let* (len, r1) := read_be 4 r0 in
     let* (count, r2) := read_be 4 r1 in
     if (MAXCOUNT <? count) || (len <? count) then Err EInvalidValue
-    else if count =? 0 then Ok ([], None, r2)
+    else if count =? 0 then
+      let* rest := checked_sub_len len 4 in
+      let* (_, r3) := read_len rest r2 in Ok ([], None, r3)
     else
       let* (fc, r3) := take_code None r2 in
       let* size := checked_sub_len len 5 in
